@@ -156,6 +156,8 @@ def _p_norm(p: float, critical_pairs: list = []):
             if x1 == x0:
                 # zero-length segment (a repeated abscissa): contributes nothing to the integral
                 continue
+            # integer ordinates (integer critical pairs or value arrays) would wrap in the integer powers below
+            y0, y1 = float(y0), float(y1)
             if y0 == y1:
                 # horizontal line segment
                 result += (np.abs(y0) ** p) * (x1 - x0)
